@@ -74,20 +74,20 @@ def binding(w):
 def deviations(w):
     ok = True
     for d, sw in (("CacheBeforeCheck", False), ("CacheFailedGet", False), ("ExistStatsFile", False), ("SwitchStrandsPending", True), ("SwitchKeepsCache", True),
-                  ("FlushWritesArgument", False), ("DropKeepsMemory", False)):
+                  ("FlushWritesArgument", False), ("DropKeepsMemory", False), ("RepairDropsPending", False)):
         r = gen.mc_check(w.sub("dev-" + d), slots=2, kvals=2, avals=2, maxbatch=1, maxops=4, switch=sw, flusher=True, dev=(d,), bfilter="NoBatch", workers=8,
-                         flushone=(d == "FlushWritesArgument"), drop=(d == "DropKeepsMemory"))
+                         flushone=(d == "FlushWritesArgument"), drop=(d == "DropKeepsMemory"), repair=(d == "RepairDropsPending"))
         broke = bool(r.violated or r.prop_violated)
         log("deviation %-22s breaks the design model: %s (%s)" % (d, broke, ", ".join(r.violated) or "-"))
         ok &= broke
-    r = gen.mc_check(w.sub("dev-none"), slots=2, kvals=2, avals=2, maxbatch=1, maxops=4, switch=True, flusher=True, dev=(), bfilter="NoBatch", workers=8, flushone=True, drop=True)
+    r = gen.mc_check(w.sub("dev-none"), slots=2, kvals=2, avals=2, maxbatch=1, maxops=4, switch=True, flusher=True, dev=(), bfilter="NoBatch", workers=8, flushone=True, drop=True, repair=True)
     log("design model without deviation holds: %s (%d states)" % (r.completed and not r.violated, r.distinct))
     ok &= r.completed and not r.violated
     return ok
 
 
 def coverage(w):
-    cfg = gen.impl_cfg(slots=2, kvals=2, avals=2, maxbatch=2, maxops=4, switch=True, flusher=True, get=True, handle=True, bfilter="PairBatch", flushone=True, drop=True)
+    cfg = gen.impl_cfg(slots=2, kvals=2, avals=2, maxbatch=2, maxops=4, switch=True, flusher=True, get=True, handle=True, bfilter="PairBatch", flushone=True, drop=True, repair=True)
     r = vlib.tlc("MCImpl", cfg, w.sub("cov"), workers=8, timeout=900, heap="8g", extra=("-coverage", "1"))
     zero = []
     for m in re.finditer(r"<(\w+) line \d+, col \d+ to line \d+, col \d+ of module SodImpl>: (\d+):(\d+)", r.out):
